@@ -1,6 +1,372 @@
 import Grass.Proto
-/- Core `Lexer` — stub; replaced by the model (see DESIGN.md §8). -/
+/-
+  C01 / C18 core — the lexer and the character-level scanners.
+
+  Mirrors
+    crates/compiler/src/lexer.rs        `TokenLexer::next` (l.128-146), `Lexer::span_at_index` (l.38-53)
+    crates/compiler/src/common.rs       `Identifier::from_str` (l.131-137)
+    crates/compiler/src/parse/base.rs   `BaseParser` scanners (whitespace, comments, identifier, escape,
+                                        string, declaration_value, try_parse_url)
+    crates/compiler/src/parse/sass.rs   `SassParser::whitespace_without_comments` (l.30), `skip_loud_comment` (l.40)
+    crates/compiler/src/parse/stylesheet.rs  `parse_interpolated_string` (l.1010), `try_url_contents` (l.797),
+                                        `parse_interpolated_identifier` (l.1960),
+                                        `parse_interpolated_declaration_value` (l.2070), `almost_any_value` (l.2740)
+    crates/compiler/src/parse/value.rs  `parse_number` (l.980), `try_decimal`, `try_exponent`, `consume_natural_number`
+
+  A scanner works on the token buffer `s : Array Char` (the `kind`s produced by the lexer) and a
+  cursor `i`.  Every loop of the Rust code is a recursive function here, written WITHOUT fuel:
+  Lean accepts the definitions only because it can show `s.size - i` decreases, i.e. because every
+  path through the loop body that continues the loop has advanced the cursor.  Where a loop calls
+  another scanner, the callee's progress lemma (`…_adv`) is proved first and used in `decreasing_by`.
+
+  Interpolation (`#{`) calls the expression parser, which is above the scanner layer: the
+  interpolating variants answer `unsupported` there (never a guess).
+-/
 namespace Grass.Lexer
+
+/-! ## 1. `TokenLexer` (lexer.rs:128) -/
+
+structure Tok where
+  kind : Char
+  pos  : Nat          -- byte offset in the source
+  deriving DecidableEq, Repr, Inhabited
+
+def FF : Char := Char.ofNat 12
+def CR : Char := '\r'
+def LF : Char := '\n'
+
+/-- `TokenLexer::next` iterated to the end; `cur` is `self.cursor`.
+    FF → LF (1 byte); CR LF → one LF whose `pos` is the LF byte (`cursor += 1` happens before
+    `pos` is read); lone CR → LF; anything else is itself, `len_utf8` bytes wide. -/
+def lexFrom (cur : Nat) : List Char → List Tok
+  | [] => []
+  | c :: rest =>
+    if c = FF then ⟨LF, cur⟩ :: lexFrom (cur + 1) rest
+    else if c = CR then
+      match rest with
+      | [] => [⟨LF, cur⟩]
+      | d :: rest' =>
+        if d = LF then ⟨LF, cur + 1⟩ :: lexFrom (cur + 2) rest'
+        else ⟨LF, cur⟩ :: lexFrom (cur + 1) (d :: rest')
+    else ⟨c, cur⟩ :: lexFrom (cur + c.utf8Size) rest
+
+def lex (s : List Char) : List Tok := lexFrom 0 s
+
+def kinds (ts : List Tok) : List Char := ts.map (·.kind)
+
+/-- Specification of the token kinds: the text with every FF, CRLF, CR written as LF. -/
+def normNL : List Char → List Char
+  | [] => []
+  | c :: rest =>
+    if c = FF then LF :: normNL rest
+    else if c = CR then
+      match rest with
+      | [] => [LF]
+      | d :: rest' => if d = LF then LF :: normNL rest' else LF :: normNL (d :: rest')
+    else c :: normNL rest
+
+/-- Byte length of a text (UTF-8). -/
+def byteLen : List Char → Nat
+  | [] => 0
+  | c :: rest => c.utf8Size + byteLen rest
+
+/-- Byte offsets that are character boundaries of the text, starting at offset `n`
+    (includes both ends). -/
+def boundaries (n : Nat) : List Char → List Nat
+  | [] => [n]
+  | c :: rest => n :: boundaries (n + c.utf8Size) rest
+
+/-- The four ways of writing a newline. -/
+inductive NL where
+  | lf | crlf | cr | ff
+  deriving DecidableEq, Repr, Inhabited
+
+def NL.chars : NL → List Char
+  | .lf => [LF] | .crlf => [CR, LF] | .cr => [CR] | .ff => [FF]
+
+/-- Write every LF of `s` as `k`. -/
+def substNewlines (k : NL) : List Char → List Char
+  | [] => []
+  | c :: rest => if c = LF then k.chars ++ substNewlines k rest else c :: substNewlines k rest
+
+/-- Positions after LF → CRLF: every token moves right by the number of newlines before it, a
+    newline token itself by one more (its `pos` is the LF byte of the pair). -/
+def shiftFrom (d : Nat) : List Tok → List Tok
+  | [] => []
+  | t :: ts =>
+    if t.kind = LF then ⟨LF, t.pos + d + 1⟩ :: shiftFrom (d + 1) ts
+    else ⟨t.kind, t.pos + d⟩ :: shiftFrom d ts
+
+/-- `Lexer::span_at_index` (lexer.rs:38) for a non-expanded lexer: (start byte, length). -/
+def spanAtIndex (ts : Array Tok) (idx : Nat) : Nat × Nat :=
+  match ts[idx]? with
+  | some t => (t.pos, t.kind.utf8Size)
+  | none =>
+    match ts.back? with
+    | some t => (t.pos, t.kind.utf8Size)
+    | none => (0, 0)
+
+/-! ## 2. `Identifier::from_str` (common.rs:131): `_` → `-` -/
+
+def normChar (c : Char) : Char := if c = '_' then '-' else c
+
+def identNorm (s : List Char) : List Char := s.map normChar
+
+/-- Exchange `_` and `-`. -/
+def swapChar (c : Char) : Char := if c = '_' then '-' else if c = '-' then '_' else c
+
+def identSwap (s : List Char) : List Char := s.map swapChar
+
+/-- Two characters are the same up to `_`/`-`. -/
+def sameUpTo (a b : Char) : Prop := a = b ∨ ((a = '_' ∨ a = '-') ∧ (b = '_' ∨ b = '-'))
+
+instance (a b : Char) : Decidable (sameUpTo a b) := by unfold sameUpTo; infer_instance
+
+/-- Two names are equal up to `_`/`-` (same length, position-wise). -/
+def eqUpTo : List Char → List Char → Prop
+  | [], [] => True
+  | a :: as, b :: bs => sameUpTo a b ∧ eqUpTo as bs
+  | _, _ => False
+
+/-! ## 3. Scanner results -/
+
+inductive ErrClass where
+  | expectedMoreInput          -- "expected more input."
+  | expectedCommentEnd         -- "expected */."
+  | expectedDigit              -- "Expected digit."
+  | expectedIdentifier         -- "Expected identifier."
+  | expectedEscape             -- "Expected escape sequence."
+  | expectedExpression         -- "Expected expression."
+  | invalidCodePoint           -- "Invalid Unicode code point."
+  | expectedQuote (q : Char)   -- "Expected <q>."
+  | expectedChar (c : Char)    -- "expected \"<c>\"."
+  | expectedToken              -- "Expected token."
+  | expectedString             -- "Expected string."
+  deriving DecidableEq, Repr, Inhabited
+
+/-- Which lexer span an error carries (`current_span`, `prev_span`, `span_from(start)`), as token
+    indexes; `spanBytes` turns it into bytes through `spanAtIndex`. -/
+inductive SpanRef where
+  | cur (i : Nat)
+  | prev (i : Nat)
+  | range (start i : Nat)
+  deriving DecidableEq, Repr, Inhabited
+
+/-- (low byte, high byte) of a span reference — `span_at_index`, `prev_span`, `span_from` + `merge`. -/
+def spanBytes (ts : Array Tok) : SpanRef → Nat × Nat
+  | .cur i => let (p, l) := spanAtIndex ts i; (p, p + l)
+  | .prev i => let (p, l) := spanAtIndex ts (i - 1); (p, p + l)
+  | .range st i =>
+    let (p, l) := spanAtIndex ts st
+    let (q, m) := spanAtIndex ts (i - 1)
+    (min p q, max (p + l) (q + m))
+
+inductive Res where
+  | ok (j : Nat)
+  | err (e : ErrClass) (sp : SpanRef)
+  | unsupported
+  deriving DecidableEq, Repr, Inhabited
+
+/-- Result carrying the text the scanner produced. -/
+inductive ResT where
+  | ok (j : Nat) (text : List Char)
+  | err (e : ErrClass) (sp : SpanRef)
+  | unsupported
+  deriving DecidableEq, Repr, Inhabited
+
+def ResT.toRes : ResT → Res
+  | .ok j _ => .ok j
+  | .err e sp => .err e sp
+  | .unsupported => .unsupported
+
+/-! ## 4. Character classes (utils/chars.rs) -/
+
+def isDigit (c : Char) : Bool := c.isDigit
+def isHex (c : Char) : Bool :=
+  c.isDigit || ('a'.toNat ≤ c.toNat && c.toNat ≤ 'f'.toNat) || ('A'.toNat ≤ c.toNat && c.toNat ≤ 'F'.toNat)
+/-- `is_name_start`: `_`, alphabetic, or ≥ U+0080 (for ASCII, alphabetic = letter). -/
+def isNameStart (c : Char) : Bool := c == '_' || c.isAlpha || c.toNat ≥ 0x80
+def isName (c : Char) : Bool := isNameStart c || c.isDigit || c == '-'
+/-- `char::is_ascii_whitespace`: space, tab, LF, FF, CR. -/
+def isAsciiWs (c : Char) : Bool := c == ' ' || c == '\t' || c == '\n' || c == FF || c == '\r'
+def hexVal (c : Char) : Nat :=
+  if c.isDigit then c.toNat - 48 else if 'a'.toNat ≤ c.toNat then c.toNat - 87 else c.toNat - 55
+/-- `char::from_u32`. -/
+def validScalar (v : Nat) : Bool := v < 0xD800 || (0xE000 ≤ v && v ≤ 0x10FFFF)
+def hexCharFor (n : Nat) : Char := if n < 10 then Char.ofNat (48 + n) else Char.ofNat (87 + n)
+
+/-! ## 5. Simple loops -/
+
+/-- `whitespace_without_comments`: base.rs:12 (space, tab, newline) and the indented override
+    sass.rs:30 (space, tab only). -/
+def wsNoComments (ind : Bool) (s : Array Char) (i : Nat) : Nat :=
+  if h : i < s.size then
+    if s[i] == ' ' || s[i] == '\t' || (s[i] == '\n' && !ind) then wsNoComments ind s (i + 1) else i
+  else i
+termination_by s.size - i
+
+/-- body of `skip_silent_comment` (base.rs:58): up to, not including, the newline. -/
+def untilNewline (s : Array Char) (i : Nat) : Nat :=
+  if h : i < s.size then
+    if s[i] == '\n' then i else untilNewline s (i + 1)
+  else i
+termination_by s.size - i
+
+/-- `while self.scan_char('*') {}` -/
+def skipStars (s : Array Char) (i : Nat) : Nat :=
+  if h : i < s.size then
+    if s[i] == '*' then skipStars s (i + 1) else i
+  else i
+termination_by s.size - i
+
+/-- a run of ASCII digits -/
+def skipDigits (s : Array Char) (i : Nat) : Nat :=
+  if h : i < s.size then
+    if isDigit s[i] then skipDigits s (i + 1) else i
+  else i
+termination_by s.size - i
+
+theorem wsNoComments_ge (ind : Bool) (s : Array Char) (i : Nat) : i ≤ wsNoComments ind s i := by
+  fun_induction wsNoComments ind s i <;> omega
+
+theorem wsNoComments_le (ind : Bool) (s : Array Char) (i : Nat) (hi : i ≤ s.size) :
+    wsNoComments ind s i ≤ s.size := by
+  fun_induction wsNoComments ind s i <;> omega
+
+theorem untilNewline_ge (s : Array Char) (i : Nat) : i ≤ untilNewline s i := by
+  fun_induction untilNewline s i <;> omega
+
+theorem untilNewline_le (s : Array Char) (i : Nat) (hi : i ≤ s.size) : untilNewline s i ≤ s.size := by
+  fun_induction untilNewline s i <;> omega
+
+theorem skipStars_ge (s : Array Char) (i : Nat) : i ≤ skipStars s i := by
+  fun_induction skipStars s i <;> omega
+
+theorem skipStars_le (s : Array Char) (i : Nat) (hi : i ≤ s.size) : skipStars s i ≤ s.size := by
+  fun_induction skipStars s i <;> omega
+
+theorem skipDigits_ge (s : Array Char) (i : Nat) : i ≤ skipDigits s i := by
+  fun_induction skipDigits s i <;> omega
+
+theorem skipDigits_le (s : Array Char) (i : Nat) (hi : i ≤ s.size) : skipDigits s i ≤ s.size := by
+  fun_induction skipDigits s i <;> omega
+
+/-! ## 6. Loud comments -/
+
+/-- `skip_loud_comment`, SCSS/CSS (base.rs:75), after the opening `/*` has been consumed.
+    `while let Some(next) = next() { if next != '*' continue; while scan_char('*') {};
+     if scan_char('/') return Ok }  Err("expected more input.")` -/
+def loudBody (s : Array Char) (i : Nat) : Res :=
+  if h : i < s.size then
+    if s[i] == '*' then
+      let k := skipStars s (i + 1)
+      if h2 : k < s.size then
+        if s[k] == '/' then .ok (k + 1) else loudBody s k
+      else .err .expectedMoreInput (.cur k)
+    else loudBody s (i + 1)
+  else .err .expectedMoreInput (.cur i)
+termination_by s.size - i
+decreasing_by
+  · have := skipStars_ge s (i + 1); omega
+  · omega
+
+/-- `SassParser::skip_loud_comment` (sass.rs:40) as it is now, after the opening `/*`:
+    a newline inside the comment is "expected */." at `prev_span`; end of input is
+    "expected more input."; after a run of `*` the next token is consumed whatever it is. -/
+def sassLoudBody (s : Array Char) (i : Nat) : Res :=
+  if h : i < s.size then
+    if s[i] == '\n' then .err .expectedCommentEnd (.prev (i + 1))
+    else if s[i] == '*' then
+      let k := skipStars s (i + 1)
+      if h2 : k < s.size then
+        if s[k] == '/' then .ok (k + 1) else sassLoudBody s (k + 1)
+      else .err .expectedMoreInput (.cur k)
+    else sassLoudBody s (i + 1)
+  else .err .expectedMoreInput (.cur i)
+termination_by s.size - i
+decreasing_by
+  · have := skipStars_ge s (i + 1); omega
+  · omega
+
+/-- Outcome of a fuel-indexed run. -/
+inductive Fueled where
+  | outOfFuel
+  | done (r : Res)
+  deriving DecidableEq, Repr, Inhabited
+
+/-- The same loop AS FOUND on the pinned tree (sass.rs:51 before the fix): `None` fell into
+    `_ => continue`, which does not advance.  No measure exists, so this one takes fuel; one unit
+    per iteration of the outer `loop`. -/
+def sassLoudAsFound : Nat → Array Char → Nat → Fueled
+  | 0, _, _ => .outOfFuel
+  | fuel + 1, s, i =>
+    if h : i < s.size then
+      if s[i] == '\n' then .done (.err .expectedCommentEnd (.prev (i + 1)))
+      else if s[i] == '*' then
+        let k := skipStars s (i + 1)
+        if h2 : k < s.size then
+          if s[k] == '/' then .done (.ok (k + 1)) else sassLoudAsFound fuel s (k + 1)
+        else sassLoudAsFound fuel s k
+      else sassLoudAsFound fuel s (i + 1)
+    else sassLoudAsFound fuel s i          -- `None => continue`: cursor unchanged
+
+theorem loudBody_adv (s : Array Char) (i j : Nat) (h : loudBody s i = .ok j) : i < j ∧ j ≤ s.size := by
+  fun_induction loudBody s i
+  all_goals (try (simp at h))
+  case case1 i hi hs k hk hsl =>
+    have := skipStars_ge s (i + 1)
+    subst h; omega
+  case case2 i hi hs k hk hsl ih =>
+    have := skipStars_ge s (i + 1)
+    have := ih h; omega
+  case case4 i hi hs ih => have := ih h; omega
+
+theorem sassLoudBody_adv (s : Array Char) (i j : Nat) (h : sassLoudBody s i = .ok j) :
+    i < j ∧ j ≤ s.size := by
+  fun_induction sassLoudBody s i
+  all_goals (try (simp at h))
+  case case2 i hi hn hs k hk hsl =>
+    have := skipStars_ge s (i + 1)
+    subst h; omega
+  case case3 i hi hn hs k hk hsl ih =>
+    have := skipStars_ge s (i + 1)
+    have := ih h; omega
+  case case5 i hi hn hs ih => have := ih h; omega
+
+/-! ## 7. `whitespace` with comments (base.rs:24, `scan_comment` base.rs:36) -/
+
+def loudFor (ind : Bool) (s : Array Char) (i : Nat) : Res :=
+  if ind then sassLoudBody s i else loudBody s i
+
+theorem loudFor_adv (ind : Bool) (s : Array Char) (i j : Nat) (h : loudFor ind s i = .ok j) :
+    i < j ∧ j ≤ s.size := by
+  unfold loudFor at h
+  split at h
+  · exact sassLoudBody_adv s i j h
+  · exact loudBody_adv s i j h
+
+/-- `loop { whitespace_without_comments(); if !scan_comment()? { break } }` -/
+def whitespace (ind : Bool) (s : Array Char) (i : Nat) : Res :=
+  let j := wsNoComments ind s i
+  if h : j + 1 < s.size then
+    if s[j] == '/' then
+      if s[j + 1] == '/' then whitespace ind s (untilNewline s (j + 2))
+      else if s[j + 1] == '*' then
+        match hm : loudFor ind s (j + 2) with
+        | .ok k => whitespace ind s k
+        | .err e sp => .err e sp
+        | .unsupported => .unsupported
+      else .ok j
+    else .ok j
+  else .ok j
+termination_by s.size - i
+decreasing_by
+  · have := wsNoComments_ge ind s i
+    have := untilNewline_ge s (wsNoComments ind s i + 2)
+    omega
+  · have := wsNoComments_ge ind s i
+    have := loudFor_adv ind s _ _ hm
+    omega
 
 def handle : List String → String
   | _ => "bad-op"
